@@ -263,9 +263,12 @@ def gen_evalres(rng):
     pop = gen_population(rng)
     while not pop.individuals:
         pop = gen_population(rng)
-    vals = tuple((None if rng.random() < 0.15 else gen_float(rng)) for _ in pop.individuals)
+    # a quarter of the results carry non-finite expectation values (a bitstring objective returning inf for infeasible states, an estimator returning nan)
+    nonfinite = rng.random() < 0.25
+    vals = tuple((None if rng.random() < 0.15 else rng.choice([float("inf"), float("-inf"), float("nan")]) if nonfinite and rng.random() < 0.5 else gen_float(rng))
+                 for _ in pop.individuals)
     b = rng.randrange(len(pop.individuals))
-    return BasePopulationEvaluationResult(pop, vals, pop.individuals[b], gen_float(rng))
+    return BasePopulationEvaluationResult(pop, vals, pop.individuals[b], float("inf") if nonfinite and rng.random() < 0.3 else gen_float(rng))
 
 
 def gen_circuit(rng):
